@@ -114,6 +114,29 @@ pub fn record_artifacts(
     // Initialize artifacts
     let mut artifacts: BTreeMap<VirtualTargetPath, TargetDescription> =
         BTreeMap::new();
+    // the file each artifact was read from, to tell "the same file reached
+    // again" (e.g. overlapping path arguments) from two files competing for
+    // one name
+    let mut sources: BTreeMap<VirtualTargetPath, std::path::PathBuf> =
+        BTreeMap::new();
+    let mut insert_unique =
+        |path: &str,
+         virtual_target_path: VirtualTargetPath,
+         hashes: TargetDescription|
+         -> Result<()> {
+            let source = canonicalize_path(path)?;
+            match sources.get(&virtual_target_path) {
+                Some(previous) if *previous == source => Ok(()),
+                Some(_) => Err(Error::LinkGatheringError(format!(
+                    "non unique stripped path {virtual_target_path}"
+                ))),
+                None => {
+                    sources.insert(virtual_target_path.clone(), source);
+                    artifacts.insert(virtual_target_path, hashes);
+                    Ok(())
+                }
+            }
+        };
     // For each path provided, walk the directory and add all files to artifacts
     for path in paths {
         // Normalize path
@@ -138,12 +161,7 @@ pub fn record_artifacts(
                             hash_algorithms,
                             lstrip_paths,
                         )?;
-                        if artifacts.contains_key(&virtual_target_path) {
-                            return Err(Error::LinkGatheringError(format!(
-                                "non unique stripped path {virtual_target_path}"
-                            )));
-                        }
-                        artifacts.insert(virtual_target_path, hashes);
+                        insert_unique(&path, virtual_target_path, hashes)?;
                     }
                 }
             }
@@ -151,12 +169,7 @@ pub fn record_artifacts(
             if file_type.is_file() {
                 let (virtual_target_path, hashes) =
                     record_artifact(&path, hash_algorithms, lstrip_paths)?;
-                if artifacts.contains_key(&virtual_target_path) {
-                    return Err(Error::LinkGatheringError(format!(
-                        "non unique stripped path {virtual_target_path}"
-                    )));
-                }
-                artifacts.insert(virtual_target_path, hashes);
+                insert_unique(&path, virtual_target_path, hashes)?;
             }
         }
     }
